@@ -342,6 +342,24 @@ P_C06X(pre, e) ==
             Ck("C06", "QueueAtArrival", post.ord[o].piq = QueuedAhead(post.ord[o], e.a.book.r[post.ord[o].selk]),
                <<o, post.ord[o].side, post.ord[o].price, post.ord[o].piq, "queued", QueuedAhead(post.ord[o], e.a.book.r[post.ord[o].selk])>>)
 
+\* C05, the resting case ("an order never takes more from a price level than was available there ... all later trade
+\* sequences for the resting case"): what a resting limit order is filled out of one update never exceeds what traded
+\* in that update at prices at or through its limit (half the reported amount; ledger rebuilt from the raw lines)
+P_C05R(pre, e) ==
+    e.ev = "mw" /\ e.a.active =>
+    LET post == e.st
+        delta(sk) == IF sk \in DOMAIN e.a.rawdelta THEN LadderFn(e.a.rawdelta[sk]) ELSE <<>>
+    IN \A o \in DOMAIN pre.ord :
+         (/\ pre.ord[o].mid = e.a.mid /\ pre.ord[o].inbl /\ pre.ord[o].type = "LIMIT" /\ Has(post.ord, o)
+          /\ post.ord[o].void = pre.ord[o].void /\ post.ord[o].lap = pre.ord[o].lap
+          /\ ~(post.ord[o].bspd /\ ~pre.ord[o].bspd /\ TakesSp(pre.ord[o]))
+          /\ post.ord[o].m > pre.ord[o].m) =>
+            LET d == delta(pre.ord[o].selk)
+                elig2 == SumOver({p \in DOMAIN d : Eligible(pre.ord[o], p)}, LAMBDA p : d[p])
+            IN Ck("C05", "RestingWithinTraded",
+                  2 * (post.ord[o].m - pre.ord[o].m) <= elig2 + OddLevels(pre.ord[o], d),
+                  <<o, post.ord[o].m - pre.ord[o].m, "eligible2", elig2, d>>)
+
 P_C06(pre, e) ==
     e.ev = "mw" /\ e.a.active =>
     LET post == e.st
@@ -793,7 +811,7 @@ StepOK(pre, e) ==
     /\ ("R" \in Props => (Conforms(pre, e) /\ (e.ev = "cb" => ReqVerdicts(pre, e.reqs, 1))))
     /\ ("M" \in Props => /\ (e.ev = "exec" => PlaceConforms(pre, e))
                          /\ (e.ev = "mw" => MwConforms(pre, e) /\ TradedConforms(e)))
-    /\ ("C05" \in Props => P_C05(pre, e))
+    /\ ("C05" \in Props => P_C05(pre, e) /\ P_C05R(pre, e))
     /\ ("C06" \in Props => P_C06(pre, e) /\ P_C06X(pre, e))
     /\ ("C09" \in Props => P_C09(pre, e))
     /\ ("C08" \in Props => P_C08(pre, e))
